@@ -6,6 +6,8 @@ import os, sys, json, time, fnmatch, hashlib, tempfile, shutil, atexit, subproce
 
 VERIF = os.path.dirname(os.path.dirname(os.path.abspath(__file__)))
 REPO = os.environ.get('VERIF_REPO', '/repo')
+# evidence/ and replay/ are written below OUT: /verif itself unless a mutation run redirects them (tools/mutants.py, vcheck selftest)
+OUT = os.environ.get('VERIF_OUT', VERIF)
 VENV_PY = '/venv/bin/python'
 VT_PY = shutil.which('python3-vt') or '/usr/local/bin/python3-vt'
 
@@ -117,7 +119,7 @@ class Run(object):
 
     # -- replay files
     def write_replay(self, oid, payload, script=None):
-        d = os.path.join(VERIF, 'replay')
+        d = os.path.join(OUT, 'replay')
         os.makedirs(d, exist_ok=True)
         safe = ''.join(c if c.isalnum() or c in '._-' else '_' for c in oid)[:150]
         if script is not None:
@@ -229,8 +231,8 @@ class Run(object):
             'coverage': cov, 'assumptions': self.assumptions,
             'wall_s': round(time.time() - self.t0, 2), 'violations': n_viol,
         }
-        os.makedirs(os.path.join(VERIF, 'evidence'), exist_ok=True)
-        with open(os.path.join(VERIF, 'evidence', self.pid + '.json'), 'w') as f:
+        os.makedirs(os.path.join(OUT, 'evidence'), exist_ok=True)
+        with open(os.path.join(OUT, 'evidence', self.pid + '.json'), 'w') as f:
             json.dump(ev, f, indent=1, default=str)
         print('%s tier=%s: %d obligations (%s) in %.1fs' % (
             self.pid, self.tier, len(self.obs) + sum(b[1] for b in self.bulks), ', '.join('%s=%d' % kv for kv in sorted(counts.items())), time.time() - self.t0))
